@@ -29,6 +29,8 @@ TiersByReach(p, D, C) == IF D = {} THEN <<>> ELSE
    LET top == {a \in D : \A b \in D : ReachCount(p, b, C) <= ReachCount(p, a, C)}
    IN <<top>> \o TiersByReach(p, D \ top, C)
 
+(* a cycle of the beats-or-ties digraph (a pairwise tie is a cycle of length two) *)
+HasCycle(p, C) == \E a, b \in C : a # b /\ b \in ReachFrom({a}, p, C) /\ a \in ReachFrom({b}, p, C)
 HasCondorcetWinner(p, C) == \E a \in C : \A b \in C \ {a} : Beats(p, a, b)
 (* the three stated properties of a tier list t over C *)
 TiersOK(p, t, C) ==
